@@ -7,6 +7,44 @@ import (
 
 // ReplayBehaviour runs one behaviour (a JSON array of input records starting with Init).
 func ReplayBehaviour(b *Base, name string, bz []byte, emit func(Step) error) error {
+	return ReplayReplicas(b, name, bz, 1, 0, emit)
+}
+
+// ReplayReplicas executes the behaviour k times (C14: every execution starts from the same
+// genesis; Go randomises map iteration on every range statement, so replicas inside one process
+// already explore different iteration orders) and emits the replicas back to back.
+func ReplayReplicas(b *Base, name string, bz []byte, k, repOffset int, emit func(Step) error) error {
+	var steps [][]Step
+	for r := 0; r < k; r++ {
+		var cur []Step
+		if err := replayOnce(b, name, bz, k > 1 || repOffset > 0, func(s Step) error { cur = append(cur, s); return nil }); err != nil {
+			return err
+		}
+		steps = append(steps, cur)
+	}
+	n := len(steps[0])
+	for r, cur := range steps {
+		if len(cur) != n {
+			// a replica of different length is itself a determinism failure: pad by repeating the last line
+			for len(cur) < n {
+				x := cur[len(cur)-1]
+				x.Extra.Note = "replica shorter than replica 1"
+				x.Extra.EvHash = "missing"
+				cur = append(cur, x)
+			}
+			cur = cur[:n]
+		}
+		for _, s := range cur {
+			s.Rep, s.Len = r+1+repOffset, n
+			if err := emit(s); err != nil {
+				return err
+			}
+		}
+	}
+	return nil
+}
+
+func replayOnce(b *Base, name string, bz []byte, digests bool, emit func(Step) error) error {
 	var raws []map[string]any
 	if err := json.Unmarshal(bz, &raws); err != nil {
 		return err
@@ -22,15 +60,23 @@ func ReplayBehaviour(b *Base, name string, bz []byte, emit func(Step) error) err
 	if err != nil {
 		return err
 	}
+	env.Digests = digests
 	st0, err := env.Project(env.Ctx)
 	if err != nil {
 		return err
 	}
 	if err := emit(Step{Trace: name, I: 0, Act: raws[0], Res: Res{Ok: true}, St: st0, Xfers: []Xfer{}, Hooks: []HookCall{},
-		Extra: Extra{ValidateOk: true}}); err != nil {
+		Extra: Extra{ValidateOk: true}, Ev: []EventJ{}, Rep: 1}); err != nil {
 		return err
 	}
 	for i := 1; i < len(acts); i++ {
+		// the escrow universe of the specification instance is auction ids 0..NA-1: a creation
+		// beyond it (possible only after the code has diverged from the model) ends the trace
+		if acts[i].A == "CreateFixed" || acts[i].A == "CreateBatch" {
+			if seq, err := env.K.AuctionSeq.Peek(env.Ctx); err != nil || int(seq) >= env.NA {
+				break
+			}
+		}
 		s := env.Exec(acts[i], raws[i])
 		s.Trace, s.I = name, i
 		if err := emit(s); err != nil {
